@@ -20,6 +20,7 @@ pub mod c15;
 pub mod c16;
 pub mod c17;
 pub mod c18;
+pub mod c19;
 pub mod c20;
 
 pub struct Prop {
@@ -49,6 +50,7 @@ pub fn all() -> Vec<Prop> {
         Prop { id: "C16", run: c16::run, replay: c16::replay },
         Prop { id: "C17", run: c17::run, replay: c17::replay },
         Prop { id: "C18", run: c18::run, replay: c18::replay },
+        Prop { id: "C19", run: c19::run, replay: c19::replay },
         Prop { id: "C20", run: c20::run, replay: c20::replay },
     ]
 }
